@@ -255,10 +255,11 @@ class PointLight(Light):
         pnode = self.xmlnode.find('%s/%s' % (tag('technique_common'), tag('point')))
         colornode = pnode.find(tag('color'))
         colornode.text = ' '.join(map(str, self.color))
-        _correctValInNode(pnode, 'constant_attenuation', self.constant_att)
-        _correctValInNode(pnode, 'linear_attenuation', self.linear_att)
-        _correctValInNode(pnode, 'quadratic_attenuation', self.quad_att)
-        _correctValInNode(pnode, 'zfar', self.zfar)
+        order = ['color', 'constant_attenuation', 'linear_attenuation', 'quadratic_attenuation', 'zfar']
+        _correctValInNode(pnode, 'constant_attenuation', self.constant_att, order)
+        _correctValInNode(pnode, 'linear_attenuation', self.linear_att, order)
+        _correctValInNode(pnode, 'quadratic_attenuation', self.quad_att, order)
+        _correctValInNode(pnode, 'zfar', self.zfar, order)
 
     @staticmethod
     def load(collada, localscope, node):
@@ -379,11 +380,13 @@ class SpotLight(Light):
         pnode = self.xmlnode.find('%s/%s' % (tag('technique_common'), tag('spot')))
         colornode = pnode.find(tag('color'))
         colornode.text = ' '.join(map(str, self.color))
-        _correctValInNode(pnode, 'constant_attenuation', self.constant_att)
-        _correctValInNode(pnode, 'linear_attenuation', self.linear_att)
-        _correctValInNode(pnode, 'quadratic_attenuation', self.quad_att)
-        _correctValInNode(pnode, 'falloff_angle', self.falloff_ang)
-        _correctValInNode(pnode, 'falloff_exponent', self.falloff_exp)
+        order = ['color', 'constant_attenuation', 'linear_attenuation', 'quadratic_attenuation',
+                 'falloff_angle', 'falloff_exponent']
+        _correctValInNode(pnode, 'constant_attenuation', self.constant_att, order)
+        _correctValInNode(pnode, 'linear_attenuation', self.linear_att, order)
+        _correctValInNode(pnode, 'quadratic_attenuation', self.quad_att, order)
+        _correctValInNode(pnode, 'falloff_angle', self.falloff_ang, order)
+        _correctValInNode(pnode, 'falloff_exponent', self.falloff_exp, order)
 
     @staticmethod
     def load(collada, localscope, node):
